@@ -239,7 +239,7 @@ def r4(ctx):
             guard_tests = set(id(t) for t, _ in (f.presence(inst) if inst else []))
             for t in f.cfg.nodes:
                 e = t.ast
-                if t.kind == "test" and isinstance(e, ast.Compare) and len(e.ops) == 1 and isinstance(e.ops[0], (ast.In, ast.NotIn)) and norm_text(e.left) == f"{v}.{idf}" and norm_text(e.comparators[0]) == cont:
+                if t.kind == "test" and isinstance(e, ast.Compare) and len(e.ops) == 1 and isinstance(e.ops[0], (ast.In, ast.NotIn)) and f.expand_text(e.left, t) == f"{v}.{idf}" and norm_text(e.comparators[0]) == cont:
                     present.append(f.branch(t, "true" if isinstance(e.ops[0], ast.In) else "false"))
                     guard_tests.add(id(t))
             ok = any(f.cfg.dominates(b_.id, un.id) for b_ in present)
